@@ -14,8 +14,8 @@ PROPS = {
         # lowering of binary / compound-assignment statements and emit_binop_expr (quote! interpolation, &mut self
         # recursive descent): outside the verifier's reach -> bounded stand-in through the real front end + code generator
         'bounded_standins': [
-            {'oracle': 'incan::emit_division', 'cases': 24, 'function': 'lowering of `L op R` / `T op= R` (incl. the compound-assignment desugaring) and emit_binop_expr',
-             'bound': 'exhaustive over / // % x int/float left x int/float right x plain/compound form; one fixed program shape; checks helper, operand order and promotions in the generated call'},
+            {'oracle': 'incan::emit_division', 'cases': 60, 'function': 'parser + lowering of `L op R` / `T op= R` (compound assignment on locals, fields and list elements; const initializers) and emit_binop_expr',
+             'bound': 'exhaustive over / // % x int/float left x int/float right x 5 forms (plain, compound on a local / field / list element, const initializer over literals); fixed program shapes; checks helper, operand order and promotions in the generated call (a folded const must have Python\'s value)'},
         ],
         # one concrete execution per documented message on the REAL crates (the Display impl that renders the
         # error value is outside both verifiers; the contracts pin the value, these pin its text)
@@ -104,10 +104,14 @@ PROPS = {
         ],
         'kani': [],
         'not_covered': [
-            'call sites in src/lsp/backend.rs that pass spans to span_to_range / positions to position_to_offset',
+            'src/lsp/backend.rs: diagnostics published for imported modules (lines 193, 224) and the concurrency of handlers (C18); hover/goto_definition call sites only by the bounded stand-in',
         ],
         # compile_error_to_diagnostic builds lsp_types::Diagnostic / Url values (external crates): bounded stand-in on the real function
         'bounded_standins': [
+            {'oracle': 'syntax::format_error_location', 'cases': 400, 'function': 'format_error (the call site of get_line_info: which offset it passes, how it prints line:col)',
+             'bound': 'exhaustive over 13 fixed documents x every span start in 0..=len+1 plus two huge offsets; the `--> file:line:col` header must agree with counting newlines and characters (known byte-column class excluded)'},
+            {'oracle': 'lsp::server_ranges', 'cases': 700, 'function': 'src/lsp/backend.rs hover / goto_definition (call sites of span_to_range and position_to_offset)',
+             'bound': 'the real IncanLanguageServer driven with did_open + hover + goto_definition on 6 fixed documents (plain, decorated declarations, multi-byte and astral characters, CRLF, enum, syntax error) x every character boundary as the cursor; every returned range must lie inside the document'},
             {'oracle': 'lsp::diagnostic_range', 'cases': 12000, 'function': 'compile_error_to_diagnostic',
              'bound': 'exhaustive over 13 fixed documents (ASCII, multi-byte, astral, LF/CRLF, empty lines) x every (start, end) in 0..=len+1 plus two huge offsets; checks the range and every related-information range'},
         ],
